@@ -11,7 +11,7 @@
    make the code panic on purpose (command.rs: "a developer error"), which the model reproduces
    (Machine.poll_fut) and the automaton allows (h_bad). *)
 From Coq Require Import List NArith Bool Arith.
-From Crux Require Import Timer.Machine Timer.Spec Timer.SpecProofs Timer.MachineProofs.
+From Crux Require Import Timer.Machine Timer.Spec Timer.SpecProofs Timer.MachineInv Timer.MachineProofs.
 Import ListNotations.
 
 (* ------------------------------------------------------------------------------------------ *)
